@@ -40,6 +40,10 @@ type vf05Case struct {
 	ViaDecoder bool `json:"via_multiboot_decoder,omitempty"`
 	// Many > 0: Secs is generated - Many one-page-apart sections of alternating flags starting at Secs[0].Addr
 	Many int `json:"many_sections,omitempty"`
+	// RsvHistory: the boot-time reservation history, in order: "ok" reserves and maps one page (frame 0x5000+i), "rej:max" /
+	// "rej:over" / "rej:wrap" are requests that cannot fit (largest page multiple / one page more than what is left / 2^64-1)
+	// and whose error the caller handles. Only the accepted reservations have to be carried over.
+	RsvHistory []string `json:"reservation_history,omitempty"`
 }
 
 // vf05Block encodes the sections (plus the string table section the format requires) as a multiboot info block.
@@ -111,6 +115,32 @@ func vf05Run(run *verifrt.Run, m *vfMMU, c vf05Case) {
 			panic("verif: cannot set up an early reservation: " + err.Message)
 		}
 		rsvFrames[a] = f.Address()
+	}
+	for _, h := range c.RsvHistory {
+		if h == "ok" {
+			a, err := EarlyReserveRegion(4096)
+			if err != nil {
+				panic(err)
+			}
+			f := mm.Frame(0x5000 + len(rsvFrames))
+			if err := Map(mm.PageFromAddress(a), f, FlagPresent|FlagRW); err != nil {
+				panic("verif: cannot set up an early reservation: " + err.Message)
+			}
+			rsvFrames[a] = f.Address()
+			continue
+		}
+		size := ^uintptr(0) - 4095
+		switch h {
+		case "rej:over":
+			size = earlyReserveLastUsed + 4096
+		case "rej:wrap":
+			size = ^uintptr(0)
+		}
+		if _, err := EarlyReserveRegion(size); err == nil {
+			// accepting a request that cannot fit is C07's business; nothing defined to compare against here
+			run.Note("EarlyReserveRegion(%#x) was accepted although it cannot fit; case skipped (see C07)", size)
+			return
+		}
 	}
 	if c.Many > 0 {
 		base := c.Secs[0]
@@ -335,6 +365,27 @@ func TestVerifC05(t *testing.T) {
 		}
 	}
 	rsvRec(nil)
+	// reservation histories that contain rejected requests: every sequence of <=3 (thorough: 4) requests over
+	// {accepted, three kinds of request that cannot fit} with at least one rejection, with and without a section
+	histLen := 3
+	if run.Thorough() {
+		histLen = 4
+	}
+	var histRec func(cur []string, rej bool)
+	histRec = func(cur []string, rej bool) {
+		if rej {
+			h := append([]string(nil), cur...)
+			one(vf05Case{Secs: []vf05Sec{{bases[0] + 0x10, 4096, 3}}, RsvHistory: h, KOff: vf05KOff})
+			one(vf05Case{RsvHistory: h, KOff: vf05KOff})
+		}
+		if len(cur) == histLen {
+			return
+		}
+		for _, k := range []string{"ok", "rej:max", "rej:over", "rej:wrap"} {
+			histRec(append(cur, k), rej || k != "ok")
+		}
+	}
+	histRec(nil, false)
 	// through the real multiboot decoder instead of the seam: the single-section shapes on one base, and section tables
 	// of up to 1100 (thorough: 2100) headers whose last sections are loaded ones
 	for _, sh := range shapes {
@@ -390,6 +441,6 @@ func TestVerifC05(t *testing.T) {
 			one(vf05Case{Secs: []vf05Sec{{koff + 0x200000 + sh.off, sh.size, sh.flags}, {koff - 0x100000 + 0x10, 100, 7}}, Rsv: 1, KOff: koff})
 		}
 	}
-	run.Finish(true, "every single section over the shape set (start offset {0,1,0x10,0x800,0xff0,0xfff} x sizes ending one byte before / at / one / two bytes after a page boundary over 1-3 pages x W/A/X flag sets) x 5 bases (below / at / above the kernel offset, second P3 entry) x reservations {0,1,3}; the same shapes and section tables of 3..1100 headers through the real multiboot decoder; every assignment of 5 frames (two runs and a foreign frame) to 1-4 reserved pages; section pairs (full product in thorough, a fixed 1-in-23 sub-lattice in quick); adjacent-page triples; allocation failure at each of the first 14 allocations of 3 configurations (thorough: at each of the first 8 allocations of every single-section shape; 27k three-section sets; sections of 16/511/512/513 pages); 3 kernel offsets",
+	run.Finish(true, "every single section over the shape set (start offset {0,1,0x10,0x800,0xff0,0xfff} x sizes ending one byte before / at / one / two bytes after a page boundary over 1-3 pages x W/A/X flag sets) x 5 bases (below / at / above the kernel offset, second P3 entry) x reservations {0,1,3}; the same shapes and section tables of 3..1100 headers through the real multiboot decoder; every assignment of 5 frames (two runs and a foreign frame) to 1-4 reserved pages; every reservation history of <=3 (thorough: 4) requests over {accepted, 3 kinds of request that cannot fit and is rejected}; section pairs (full product in thorough, a fixed 1-in-23 sub-lattice in quick); adjacent-page triples; allocation failure at each of the first 14 allocations of 3 configurations (thorough: at each of the first 8 allocations of every single-section shape; 27k three-section sets; sections of 16/511/512/513 pages); 3 kernel offsets",
 		"distinct by (mapped pages, NX pages, RW pages, reservations, sections) outcome class")
 }
